@@ -35,6 +35,9 @@ ASSUMPTIONS = [
 FILLER = ["int main(void) { return 0; }", "x = 1", "", "    indented code", "plain words here", "def f(): pass", "<p>text</p>", "; asm", "\tTabbed"]
 FRAMES = ["|*", "##", "**", "#", "*", "//", "|", ";;", "%%"]
 WS = [" ", "  ", "\t"]
+# tag names without a value: such a line states nothing, and the line after it is read as usual
+EMPTY_TAGS = ["SPDX-License-Identifier:", "# SPDX-License-Identifier:", "// SPDX-License-Identifier: ", " * SPDX-License-Identifier:\t", "SPDX-FileContributor:",
+              "# SPDX-FileContributor:", "-- SPDX-FileContributor:", "License: see SPDX-License-Identifier:"]
 
 
 def _norm_expr(value):
@@ -121,6 +124,8 @@ def text_case(draw, allow_invalid=True):
     for _ in range(nseg):
         if draw(st.integers(0, 3)) == 0:
             segs.append({"lines": [draw(st.sampled_from(FILLER))], "tag": None})
+        if draw(st.integers(0, 5)) == 0:
+            segs.append({"lines": [draw(st.sampled_from(EMPTY_TAGS))], "tag": None, "empty_tag": True})
         segs.append(draw(tag_segment(allow_invalid)))
         if draw(st.integers(0, 2)) == 0:
             segs.append({"lines": [draw(st.sampled_from(FILLER))], "tag": None})
@@ -163,7 +168,8 @@ def check_text(ctx, segs):
     case = {"text": text, "tags": [{k: t[k] for k in ("kind", "value", "form", "style", "prefix_text")} for t in tags]}
     ctx.count(text, nontrivial=any(t["form"] != "bare" for t in tags),
               labels=[f"form:{t['form']}" for t in tags] + [f"style:{t['style']}" for t in tags] + [f"kind:{t['kind']}" for t in tags]
-              + (["trailing-after-terminator"] if any(t["trailing"] and t["form"] in ("inline", "lastline", "frame") for t in tags) else []),
+              + (["trailing-after-terminator"] if any(t["trailing"] and t["form"] in ("inline", "lastline", "frame") for t in tags) else [])
+              + (["valueless-tag-line-before-a-tag"] if any(s.get("empty_tag") for s in segs) else []),
               sample=case)
     try:
         info = extract_reuse_info(text)
@@ -205,7 +211,9 @@ def file_case(draw):
     nonascii_filler = draw(st.booleans())
     # a two-byte character whose bytes sit on either side of the 4096-byte cut
     split_char = edge == "none" and snippet != "straddle" and draw(st.booleans())
-    return {"split_char": split_char, "eol": eol, "head": head, "edge": edge, "edge_seg": edge_seg, "edge_pos": edge_pos, "tail": tail,
+    # bytes 1100..3000 are not text at all (a payload appended to a script): the head of the file decides that it is a text file
+    bintail = where == "file" and snippet != "straddle" and draw(st.integers(0, 3)) == 0
+    return {"bintail": bintail, "split_char": split_char, "eol": eol, "head": head, "edge": edge, "edge_seg": edge_seg, "edge_pos": edge_pos, "tail": tail,
             "snippet": snippet, "bad": bad, "where": where, "nonascii_filler": nonascii_filler, "straddle": straddle}
 
 
@@ -256,6 +264,17 @@ def build_file(c):
                     out += ("x" * k + eol).encode()
         assert len(out) == n_bytes, (len(out), n_bytes)
 
+    if c.get("bintail") and len(out) < 1000:
+        import hashlib
+
+        pad_to(1100)
+        blob = b""
+        k = 0
+        while len(blob) < 1900:
+            blob += hashlib.sha256(b"payload%d" % k).digest()
+            k += 1
+        # no line breaks inside the payload, and nothing that looks like a tag
+        out += bytes(b if b not in (0x0A, 0x0D) else 0x01 for b in blob[:1900]) + eol.encode()
     if c["snippet"] == "straddle":
         # the marker text itself crosses a multiple of 4096 bytes
         k, r = c["straddle"]
@@ -339,7 +358,7 @@ def check_file(ctx, c):
         alltags = inside + outside
         ctx.count(data, nontrivial=any(t["form"] != "bare" for t in alltags) and bool(alltags),
                   labels=[f"eol:{c['eol']!r}", f"split-char-at-4096:{bool(c.get('split_char'))}", f"edge:{c['edge']}", f"snippet:{snippet}", f"bad:{'scanned' if bad else 'unscanned' if (bad_in or bad_out) else 'none'}",
-                          f"where:{c['where']}", f"outside-tags:{len(outside)}"],
+                          f"where:{c['where']}", f"outside-tags:{len(outside)}", f"binary-payload-after-1100:{bool(c.get('bintail'))}"],
                   sample={"eol": c["eol"], "edge": c["edge"], "edge_pos": c["edge_pos"], "snippet": c["snippet"], "bad": c["bad"], "where": c["where"],
                           "edge_line": c["edge_seg"]["lines"] if c["edge_seg"] else None, "size": len(data)})
         if (g_lic, g_cop) != (lic, cop):
